@@ -1338,6 +1338,19 @@ Section MoveMachine.
       apply nget_In in Hg. apply in_map_iff. exists (n, x). auto.
     - unfold alias_view. rewrite HgD, Ed. exact Ea.
   Qed.
+  (* the final state itself (for the theorems about what can be looked up in it) *)
+  Theorem moved_final0 sigma :
+    Permutation sigma (module_ids p) ->
+    exists s, run_state p sigma = Ok s /\ InvA s /\ frames s = [] /\ unproc s = [] /\ aliasD s.
+  Proof.
+    intros Hperm. unfold run_state.
+    destruct (run_machine_ok2 (run_fuel p) (init_state p sigma) (Inv2_init sigma Hperm) (init_mu p sigma Hperm))
+      as (s & Hrun & H2 & Hfr & Hun).
+    exists s. split; [exact Hrun|].
+    assert (Hph : dpendb s = false) by (unfold dpendb; rewrite Hfr, Hun; reflexivity).
+    destruct (i2_p1 _ s H2 Hph) as (HI & HaD & _). auto.
+  Qed.
+
   (* ---- a consumer module C (neither R nor D) without star imports / assignment aliases: its alias map follows its
           import statements, whatever the schedule and whenever the move happens ---- *)
   Section Consumer.
